@@ -51,9 +51,9 @@ RECURSIVE DivRec(_, _, _, _)
 \* restoring division, most significant bit first: returns <<quotient bits, remainder>>
 DivRec(q, r, a, b) ==
   IF a = <<>> THEN <<q, r>>
-  ELSE LET r2 == Tail(r) \o <<Head(a)>>                    \* r has one spare leading bit
-       IN IF LeBits(b, r2) THEN DivRec(Append(q, 1), SubB(r2, b, 0).diff, Tail(a), b)
-          ELSE DivRec(Append(q, 0), r2, Tail(a), b)
+  ELSE \* r has one spare leading bit; r2 is bound by a set comprehension so that it is evaluated once
+       CHOOSE res \in {IF LeBits(b, r2) THEN DivRec(Append(q, 1), SubB(r2, b, 0).diff, Tail(a), b)
+                       ELSE DivRec(Append(q, 0), r2, Tail(a), b) : r2 \in {Tail(r) \o <<Head(a)>>}} : TRUE
 \* quotient and remainder (b # 0), all of width n
 DivMod(a, b) == LET n == Len(a)
                     r == DivRec(<<>>, ZeroBits(n + 1), a, <<0>> \o b)
